@@ -6,8 +6,8 @@
 (* has and the model keeps: at `end`, Next leaves everything as it is, and the *)
 (* `between` case with a nil node cannot arise.  Checked against AbsCursor.    *)
 EXTENDS AVL, AbsCursor
-VARIABLES it, pos, ret
-ivars == <<T, last, it, pos, ret>>
+VARIABLES it, pos, ret, stale
+ivars == <<T, last, it, pos, ret, stale>>
 Seq0 == InOrder(T, T.root)
 RECURSIVE Extreme(_, _, _), Climb(_, _, _)
 Extreme(t, x, a) == IF Child(t, x, a) = Nil THEN x ELSE Extreme(t, Child(t, x, a), a)
@@ -29,20 +29,25 @@ PrevIt(t, i) ==
            [] i.position = "between" -> Btw(Walk1(t, i.node, 0))           \* node.Prev()
            [] OTHER                  -> i, "begin")
 Pr == [name |-> "true", m |-> 0, r |-> 0, i |-> 0]
-IInit == Init /\ it = [position |-> "closed", node |-> Nil] /\ pos = -1 /\ ret = FALSE
-Build == it.position = "closed" /\ Next /\ UNCHANGED <<it, pos, ret>>
-Open == it.position = "closed" /\ it' = AtBegin /\ pos' = -1 /\ ret' = FALSE /\ UNCHANGED <<T, last>>
+IInit == Init /\ it = [position |-> "closed", node |-> Nil] /\ pos = -1 /\ ret = FALSE /\ stale = FALSE
+Build == it.position = "closed" /\ Next /\ UNCHANGED <<it, pos, ret, stale>>
+Open == it.position = "closed" /\ it' = AtBegin /\ pos' = -1 /\ ret' = FALSE /\ UNCHANGED <<T, last, stale>>
 Opened == it.position # "closed"
-Do(op, j) == /\ Opened /\ it' = j /\ pos' = Move(Seq0, pos, op, Pr)
-             /\ ret' = (j.node # Nil) /\ UNCHANGED <<T, last>>
-INext == \/ Build \/ Open
+\* kept iterators (DESIGN 14.4, as in RBTIter): the tree is modified while the iterator exists; only the absolute jumps are
+\* specified (and modelled) from a stale iterator, and they anchor it again
+Absolute(op) == op \in {"Begin", "End", "First", "Last"}
+Mutate == Opened /\ Next /\ stale' = TRUE /\ UNCHANGED <<it, pos, ret>>
+Do(op, j) == /\ Opened /\ (~stale \/ Absolute(op)) /\ it' = j /\ pos' = Move(Seq0, pos, op, Pr)
+             /\ ret' = (j.node # Nil) /\ stale' = FALSE /\ UNCHANGED <<T, last>>
+INext == \/ Build \/ Open \/ Mutate
          \/ Do("Next", NextIt(T, it)) \/ Do("Prev", PrevIt(T, it))
          \/ Do("Begin", AtBegin) \/ Do("End", AtEnd)
          \/ Do("First", NextIt(T, AtBegin)) \/ Do("Last", PrevIt(T, AtEnd))
 ISpec == IInit /\ [][INext]_ivars
-CursorInv == Opened =>
+CursorInv == (Opened /\ ~stale) =>
    /\ (it.position = "between") = Inside(Seq0, pos)
    /\ (it.position = "between" => it.node # Nil /\ <<T.n[it.node].key, T.n[it.node].val>> = Seq0[pos + 1])
    /\ (it.position = "begin" => pos = -1) /\ (it.position = "end" => pos = Len(Seq0))
-IView == <<Canon(T, T.root), it.position, IF it.node = Nil THEN 0 ELSE T.n[it.node].key, pos>>
+IView == IF stale THEN <<Canon(T, T.root), "stale", 0, 0>>
+         ELSE <<Canon(T, T.root), it.position, IF it.node = Nil THEN 0 ELSE T.n[it.node].key, pos>>
 =============================================================================
